@@ -176,7 +176,10 @@ func (c *SubscriptionManager) RemoveSubscriptionsForEntity(remoteEntity api.Enti
 
 	var newSubscriptionEntries []*api.SubscriptionEntry
 	for _, item := range c.subscriptionEntries {
-		if !reflect.DeepEqual(item.ClientFeature.Address().Device, remoteEntity.Address().Device) ||
+		// the subscription has to belong to the same remote device. The device
+		// address does not tell: it is unknown for every device that has not
+		// answered the detailed discovery yet
+		if item.ClientFeature.Device().Ski() != remoteEntity.Device().Ski() ||
 			!reflect.DeepEqual(item.ClientFeature.Address().Entity, remoteEntity.Address().Entity) {
 			newSubscriptionEntries = append(newSubscriptionEntries, item)
 			continue
